@@ -235,6 +235,42 @@ pub fn inject_errors(rng: &mut Rng, files: &mut [(PathBuf, String)]) -> usize {
         ("    ()\n}", "    undefined_name\n}"),
     ];
     let mut n = 0;
+    // load-time errors, which are reported while the package's files are still being read: a second package
+    // declaration name and unparsable files, in packages with several files (which one is reported first
+    // must not depend on the order the directory happens to be enumerated in)
+    if rng.chance(1, 3) {
+        let mut by_dir: std::collections::BTreeMap<String, Vec<usize>> = std::collections::BTreeMap::new();
+        for (i, (p, _)) in files.iter().enumerate() {
+            by_dir.entry(p.parent().map(|d| d.display().to_string()).unwrap_or_default()).or_default().push(i);
+        }
+        let multi: Vec<Vec<usize>> = by_dir.values().filter(|v| v.len() >= 3 || (v.len() == 2 && !files[v[0]].0.ends_with("main.gom"))).cloned().collect();
+        if !multi.is_empty() {
+            let group = rng.pick_ref(&multi).clone();
+            let non_entry: Vec<usize> = group.iter().copied().filter(|i| !files[*i].0.ends_with("main.gom")).collect();
+            match rng.below(3) {
+                0 if !non_entry.is_empty() => {
+                    let i = *rng.pick_ref(&non_entry);
+                    let first = files[i].1.lines().next().unwrap_or("").to_string();
+                    files[i].1 = files[i].1.replacen(&first, "package Elsewhere", 1);
+                    n += 1;
+                }
+                1 if non_entry.len() >= 2 => {
+                    for i in non_entry.iter().take(2) {
+                        files[*i].1.push_str("\nfn broken( {\n");
+                        n += 1;
+                    }
+                }
+                _ => {
+                    for i in non_entry.iter() {
+                        let first = files[*i].1.lines().next().unwrap_or("").to_string();
+                        files[*i].1 = files[*i].1.replacen(&first, &format!("{}x{}", first, i), 1);
+                        files[*i].1.push_str("\nlet let let\n");
+                        n += 1;
+                    }
+                }
+            }
+        }
+    }
     for (_, text) in files.iter_mut() {
         for (a, b) in reps {
             if text.contains(a) && rng.chance(1, 2) {
